@@ -202,7 +202,7 @@ agrees with `u` where the integer variable equals `i`.  (Discharging that hypoth
 `S u α = denName mb u (bitsOfInts dvars α)` needs the specifications of `reorder` and
 `cofactor` on the BDD side: C07/C04.) -/
 theorem C15_bddToMdd_partial (S : Int → MAsg → Bool) (L : Nat → Nat)
-    (hSneg : ∀ x α, S (-x) α = !S x α)
+    (hSneg : ∀ x α, x ≠ 0 → S (-x) α = !S x α)
     (rm : List Nat) (btv : List (String × MVar)) (P : Mgr → Prop) (K : Nat → Prop)
     (hBdd : ∀ u umap mb var succs mb1, P mb → K u →
       b2mIntSucc btv u umap mb = (.ok (var, succs), mb1) → P mb1 ∧ BddSideOK S L u umap var succs)
@@ -237,10 +237,23 @@ theorem C15_bddToMdd_partial (S : Int → MAsg → Bool) (L : Nat → Nat)
   split
   · next hneg =>
     have : s = -((u : Nat) : Int) := by omega
-    rw [denM_neg _ hinv.wf.toMWF r α hm, hden α hα, this, hSneg]
+    rw [denM_neg _ hinv.wf.toMWF r α hm, hden α hα, this, hSneg _ _ (by omega)]
   · next hneg =>
     have : s = ((u : Nat) : Int) := by omega
     rw [hden α hα, this]
+
+/-- the hypotheses of `C15_bddToMdd_partial` are jointly satisfiable (degenerate instance: the
+constant BDD, nothing to convert; `S` = "the reference is regular").  A non-degenerate instance
+of the BDD-side hypothesis cannot be evaluated in the kernel (the memo of `cofactorF` is a
+`HashMap`); it is exercised by the correspondence runs instead. -/
+example : ∃ (S : Int → MAsg → Bool) (L : Nat → Nat) (P : Mgr → Prop) (K : Nat → Prop) (out : B2MOut) (mb' : Mgr),
+    (∀ x α, x ≠ 0 → S (-x) α = !S x α) ∧ (∀ α, S 1 α = true) ∧ L 1 ≤ ([] : List MVar).length ∧
+    (∀ u umap mb var succs mb1, P mb → K u →
+      b2mIntSucc [] u umap mb = (.ok (var, succs), mb1) → P mb1 ∧ BddSideOK S L u umap var succs) ∧
+    b2mLoop [] [] [] (MddMgr.new (some [])) [(1, 1)] {} = (.ok out, mb') :=
+  ⟨fun x _ => decide (0 < x), fun _ => 0, fun _ => True, fun _ => False, _, _,
+    by intro x α hx; by_cases h : 0 < x <;> simp [h] <;> omega,
+    by intro α; rfl, Nat.le_refl _, by intro _ _ _ _ _ _ _ hK; exact absurd hK id, rfl⟩
 
 /-! ### every reachable state -/
 
